@@ -120,7 +120,46 @@ def chk_sweep(case, note):
     return None
 
 
+def enum_corpus(ctx):
+    from vlib import corpus
+    idx = 0
+    for kind, items in (("adsb", corpus.adsb()), ("df20", corpus.commb(20)), ("df21", corpus.commb(21))):
+        for start in range(0, len(items), 100):
+            idx += 1
+            if ctx.mine(idx):
+                yield {"kind": kind, "start": start}
+
+
+def chk_corpus(case, note):
+    from vlib import corpus
+    items = {"adsb": corpus.adsb, "df20": lambda: corpus.commb(20), "df21": lambda: corpus.commb(21)}[case["kind"]]()
+    rows = items[case["start"]:case["start"] + 100]
+    noisy = 0
+    for row in rows:
+        m, known = row[0], row[1]
+        v = int(m, 16)
+        if case["kind"] != "adsb":
+            # reference AP decoding first: validates ref.crc24 against the address the radar interrogated.  The corpus is
+            # real reception (3 of its 10 000 replies carry bit errors), so the label is allowed to disagree on a few frames
+            # of a block; the library is then judged against the reference on every frame.
+            ref = "%06X" % (crc24.parity(v >> 24, 88) ^ (v & 0xFFFFFF))
+            if ref != known:
+                noisy += 1
+            known = ref
+        for variant in (m, m.lower()):
+            r = call(pms.icao, variant)
+            if r != ("ok", known):
+                return "icao(%s) -> %r, the real transponder address is %s" % (variant, r, known)
+    if noisy > 3:
+        return "reference AP overlay disagrees with the interrogated address on %d of %d real replies: the reference is wrong" % (noisy, len(rows))
+    note.evals = 2 * len(rows)
+    note.cls("real-" + case["kind"])
+    note.nt(True)
+    return None
+
+
 LEGS = [
+    Leg("corpus", chk_corpus, enum=enum_corpus, exhaustive=True, doc="real DF17/DF20/DF21 frames with their known addresses (upper and lower case)"),
     Leg("exact", chk_exact, strategy=s_exact, quick=30000, thorough=1000000, doc="every DF x both lengths x letter case"),
     Leg("canonical", chk_canon, strategy=s_canon, quick=16000, thorough=500000, doc="same address, two formats/cases -> same string"),
     Leg("address_sweep", chk_sweep, enum=enum_sweep, exhaustive=False, doc="address sweep on DF4/DF17/DF20 (stride 251 quick, all 2^24 thorough)"),
